@@ -12,7 +12,7 @@ from . import ir
 from .report import m_replace
 
 META = {
-    "level": "proof",
+    "level": "other",
     "explanation": (
         "Closed list of structural obligations that make `len <= max_length` inductive (I1 private map, mutated only in "
         "impl LimitedCache; I2 each growth site dominated by `len >= max -> cleanup`; I3 cleanup's retain predicate rejects "
@@ -20,7 +20,7 @@ META = {
         "transparency by dataflow (T1: value returned is the one bound from the map entry of the parameter key; get_or_set "
         "adds under a clone of the same key, returns a clone of the computed value, and `?` precedes the insertion), and "
         "recency (R1: get/add stamp with a strictly increasing counter; the extracted pivot-index expression e(len) is "
-        "evaluated for len 1..64 and must satisfy 0 <= e(len) < len and, for len >= 2, e(len) < len-1 on an ascending sort)."),
+        "evaluated for len 1..64 and must satisfy 0 <= e(len) < len and, for len >= 2, e(len) < len-1 on an ascending sort). (Claimed as `proof` for most of the session; lowered to `other` after the seeded change C20f showed the stamp order of `add` was not among the obligations; R1|add|stamp was added.)"),
     "not_decided": "HashMap itself; behaviour for capacity 1 (the clause 'just-used entry survives' is unsatisfiable there); byte-budget to capacity arithmetic.",
     "trusted_base": ["std::collections::HashMap, Vec::sort*", "rustc privacy checking (private field)", "u64 stamp counter does not overflow"],
 }
